@@ -65,10 +65,11 @@ pub mod joypad_events;
 pub mod lcd_batches;
 pub mod mbc_history;
 pub mod program_lockstep;
+pub mod time_conservation;
 pub mod timer_batches;
 
 pub fn all() -> Vec<&'static dyn Scenario> {
-    vec![&timer_batches::TimerBatches, &block_lockstep::BlockLockstep, &bus_crash::BusCrash, &mbc_history::MbcHistory, &cache_bank_history::CacheBankHistory, &joypad_events::JoypadEvents, &lcd_batches::LcdBatches, &dma_batches::DmaBatches, &bus_history::BusHistory, &irq_dispatch::IrqDispatch, &ime_sequences::ImeSequences, &program_lockstep::ProgramLockstep]
+    vec![&timer_batches::TimerBatches, &block_lockstep::BlockLockstep, &bus_crash::BusCrash, &mbc_history::MbcHistory, &cache_bank_history::CacheBankHistory, &joypad_events::JoypadEvents, &lcd_batches::LcdBatches, &dma_batches::DmaBatches, &bus_history::BusHistory, &irq_dispatch::IrqDispatch, &ime_sequences::ImeSequences, &program_lockstep::ProgramLockstep, &time_conservation::TimeConservation]
 }
 
 pub fn by_name(name: &str) -> Option<&'static dyn Scenario> {
@@ -83,6 +84,7 @@ pub fn plan(property: &str) -> Vec<&'static str> {
         "C04" => vec!["program_lockstep"],
         "C07" => vec!["irq_dispatch"],
         "C08" => vec!["ime_sequences"],
+        "C09" => vec!["time_conservation"],
         "C10" => vec!["bus_history"],
         "C11" => vec!["bus_crash"],
         "C12" => vec!["mbc_history"],
